@@ -5,7 +5,8 @@ Recursion.tla: Init ranges over all edge sets on up to 4 nodes (self-loops inclu
 closure, cross-checked by TLC against the order-theoretic definition (TwoDefinitionsAgree).  Each graph is realised
 as function blocks (edge = instance), as data types (edge = structure element; out-degree 1 also as alias) and,
 where every out-degree is <= 1, as a chain of enumeration aliases.  Random graphs up to 12 nodes come from the
-same module (RandomSubset).  Oracle: a recursion code (P0010 / P0013) is reported  <=>  Cyclic(E); acyclic
+same module (RandomSubset), and so do the deep / wide families on 16 and 40 nodes (chain, ladder = 2^(n/2) paths, fan,
+dense; each also with one closing edge).  Oracle: a recursion code (P0010 / P0013) is reported  <=>  Cyclic(E); acyclic
 units are accepted.
 """
 import os
@@ -18,69 +19,7 @@ import vlib  # noqa: E402
 REC = {"P0010", "P0013"}
 
 
-def outs(g, i):
-    return sorted(b for a, b in g["edges"] if a == i)
-
-
-def realise_fb(g, ref="N%d"):
-    """ref: how a reference to node j is spelled (names are case-insensitive: 'n3' is N3)"""
-    t = ""
-    for i in range(1, g["n"] + 1):
-        t += "FUNCTION_BLOCK N%d\n  VAR\n" % i
-        for j in outs(g, i):
-            t += "    e%d : %s;\n" % (j, ref % j)
-        t += "    x : INT;\n  END_VAR\n  x := 1;\nEND_FUNCTION_BLOCK\n"
-    return t
-
-
-def realise_struct(g, alias=False, ref="N%d"):
-    t = ""
-    for i in range(1, g["n"] + 1):
-        o = outs(g, i)
-        if alias and len(o) == 1:
-            t += "TYPE\n  N%d : %s;\nEND_TYPE\n" % (i, ref % o[0])
-            continue
-        t += "TYPE\n  N%d : STRUCT\n" % i
-        for j in o:
-            t += "    f%d : %s;\n" % (j, ref % j)
-        t += "    v : INT;\n  END_STRUCT;\nEND_TYPE\n"
-    return t
-
-
-def realise_mixed(g, parity):
-    """nodes of one parity are function blocks, the others structures: an edge a -> b is a variable (in a function
-    block) or an element (in a structure) of type b - cycles may alternate between the two kinds of declaration"""
-    t = ""
-    for i in range(1, g["n"] + 1):
-        o = outs(g, i)
-        if i % 2 == parity:
-            t += "FUNCTION_BLOCK N%d\n  VAR\n" % i
-            for j in o:
-                t += "    e%d : N%d;\n" % (j, j)
-            t += "    x : INT;\n  END_VAR\n  x := 1;\nEND_FUNCTION_BLOCK\n"
-        else:
-            t += "TYPE\n  N%d : STRUCT\n" % i
-            for j in o:
-                t += "    f%d : N%d;\n" % (j, j)
-            t += "    v : INT;\n  END_STRUCT;\nEND_TYPE\n"
-    return t
-
-
-def realise_enum_alias(g):
-    """only for graphs whose out-degrees are all <= 1: enumeration aliases; a sink is the enumeration itself"""
-    t = ""
-    for i in range(1, g["n"] + 1):
-        o = outs(g, i)
-        if not o:
-            t += "TYPE\n  N%d : (V%d, W%d) := V%d;\nEND_TYPE\n" % (i, i, i, i)
-        else:
-            t += "TYPE\n  N%d : N%d;\nEND_TYPE\n" % (i, o[0])
-    # a user so that the alias chain is walked
-    t += "FUNCTION_BLOCK USER\n  VAR\n"
-    for i in range(1, g["n"] + 1):
-        t += "    u%d : N%d;\n" % (i, i)
-    t += "  END_VAR\nEND_FUNCTION_BLOCK\n"
-    return t
+from graphreal import outs, realise_fb, realise_struct, realise_mixed, realise_enum_alias  # noqa: E402
 
 
 def main():
@@ -89,7 +28,8 @@ def main():
     vlib.build()
     rep = vlib.Report("C07")
     cov = {"states": 0, "transitions": 0, "traces_validated_against_impl": 0, "samples": [], "tlc_runs": []}
-    cfgs = ["MC_Rec_2.cfg", "MC_Rec_3.cfg", "MC_Rec_4s.cfg" if tier == "quick" else "MC_Rec_4.cfg", "MC_Rec_rand8.cfg", "MC_Rec_rand12.cfg"]
+    cfgs = ["MC_Rec_2.cfg", "MC_Rec_3.cfg", "MC_Rec_4s.cfg" if tier == "quick" else "MC_Rec_4.cfg", "MC_Rec_rand8.cfg", "MC_Rec_rand12.cfg",
+            "MC_Rec_shapes16.cfg", "MC_Rec_shapes40.cfg"]
     with ThreadPoolExecutor(max_workers=3) as ex:
         runs = list(ex.map(lambda c: vlib.tlc_check("Recursion.tla", c, workers=5, timeout=7200), cfgs))
     graphs = []
@@ -114,11 +54,11 @@ def main():
     for (g, kind, text), r in zip(meta, res):
         st = stats.setdefault(kind, {"cyclic": 0, "acyclic": 0})
         st["cyclic" if g["cyclic"] else "acyclic"] += 1
-        labels = {"real:" + kind, "nodes:%d" % g["n"], "cyclic" if g["cyclic"] else "acyclic",
+        labels = {"real:" + kind, "nodes:%d" % g["n"], "cyclic" if g["cyclic"] else "acyclic", "shape:" + g.get("shape", "-"),
                   "selfloop" if any(a == b for a, b in g["edges"]) else "noselfloop"}
         replay = {"edges": g["edges"], "realisation": kind, "text": text}
         if "panic" in r or "abort" in r or "timeout" in r:
-            rep.add("crash:%s" % str(r.get("panic") or "abort")[:50], labels=labels, detail={"graph": g}, replay=replay)
+            rep.add("crash:%s" % ("cpu-budget-exceeded" if "timeout" in r else str(r.get("panic") or "abort")[:50]), labels=labels, detail={"graph": g}, replay=replay)
             continue
         if any(not p["ok"] for p in r.get("parse", [])):
             rep.add("generated-unit-does-not-parse", labels=labels, detail={"parse": r["parse"]}, replay=replay)
@@ -145,7 +85,7 @@ def main():
     cov["traces_validated_against_impl"] = len(cases)
     cov["samples"].append({"edges": graphs[40]["edges"], "cyclic": graphs[40]["cyclic"], "fb_realisation": realise_fb(graphs[40])[:400]})
     cov["exhaustive"] = tier != "quick"
-    cov["rule"] = "all digraphs on <= 3 nodes, all acyclic + 1/16 (quick) or all (thorough) of the 4-node digraphs, 440 random graphs on 8 and 12 nodes; 3-4 realisations each"
+    cov["rule"] = "all digraphs on <= 3 nodes, all acyclic + 1/16 (quick) or all (thorough) of the 4-node digraphs, 440 random graphs on 8 and 12 nodes, the deep / wide families (chain, ladder, fan, dense; with and without a closing edge) on 16 and 40 nodes; 7-8 realisations each"
     return rep.finish("model_checking", cov, assumptions=["a sink type is a structure with one INT element / an enumeration"])
 
 
